@@ -15,6 +15,7 @@ let run (path : string) =
   let owner_ok_seen : (string, unit) Hashtbl.t = Hashtbl.create 64 in
   let other_owner_seen : (string, unit) Hashtbl.t = Hashtbl.create 64 in
   let collide_seen : (string, unit) Hashtbl.t = Hashtbl.create 64 in
+  let focused = ref false in
   L.iter (fun line ->
       match tokens line with
       | "case" :: id :: "pos" :: handler :: names :: si :: nok :: owner_cls :: cls :: kind :: changed :: oi :: has_pos :: coll :: vchanged :: [] ->
@@ -83,12 +84,13 @@ let run (path : string) =
         if not (holds_C12_kill is_admin ok changed) then
           predfail ~case:id ~step:1 ~pred:"holds_C12_kill" ~kf:"none"
             ~detail:(Printf.sprintf "admin=%s_enable=%s_cls=%s" (tok_of_bool is_admin) enable cls)
+      | "#" :: "focus" :: _ -> focused := true
       | [] -> ()
       | _ -> ()
     ) lines;
   (* coverage: every position message of the regenerated table was exercised, and the owner's
      run succeeded at least once (otherwise "non-owner rejected" would be vacuous) *)
-  if Sys.getenv_opt "VERIF_CASE" = None && !cases > 100 then
+  if Sys.getenv_opt "VERIF_CASE" = None && !cases > 100 && not !focused then
     L.iter (fun hn ->
         let n = string_of_coq hn in
         if not (Hashtbl.mem exercised n) then
@@ -103,4 +105,9 @@ let run (path : string) =
       position_handler_names;
   finish ~cases:!cases ~steps:!steps ~nontrivial:!nontrivial
 
+(* runner C12-focus <ignored>: the position handlers whose regenerated row fails the C12 owner check *)
+let focus (_ : string) =
+  L.iter (fun n -> print_endline ("FOCUS " ^ string_of_coq n)) c12_broken_rows
+
 let () = Conv.register "C12" run
+let () = Conv.register "C12-focus" focus
